@@ -401,6 +401,18 @@ func buildC12(tier string) *core.Plan {
 			plainMap := map[string]any{"ab": `$"hi-{fixed}"`, "fixed": "F", "m": map[string]any{`$"k{$repeat}"`: core.Clone(ib), "fixed": 1}}
 			c12Check(c, "hand-expansion-nested", plainList)
 			c12Check(c, "hand-expansion-nested", plainMap)
+			// the repeat inside the operand of another directive, and reached through a reference
+			for _, d := range []map[string]any{
+				{"e": map[string]any{"$encode": "json", "l": []any{core.Clone(ib), "x"}}},
+				{"e": map[string]any{"$encode": "json", "m": map[string]any{`$"k{$repeat}"`: core.Clone(ib)}}},
+				{"e": []any{core.Clone(ib), map[string]any{"$encode": "join:,"}}},
+				{"t": map[string]any{"l": []any{core.Clone(ib)}}, "u": map[string]any{"$merge": "t", "z": 1}},
+				{"t": map[string]any{"$output": false, "m": map[string]any{`$"k{$repeat}"`: core.Clone(ib)}}, "u": "$replace:t.m"},
+				{"o": map[string]any{"$output": true, "l": []any{core.Clone(ib)}}, "p": map[string]any{"$output": true, "l": []any{core.Clone(ib)}}},
+				{"d": map[string]any{"$decode": "json", "$value": `{"n": [1, 2]}`}, "l": []any{core.Clone(ib)}},
+			} {
+				c12Check(c, "hand-expansion-in-directive-context", d)
+			}
 			for _, d := range []map[string]any{inList, inMap, inBoth} {
 				c12Check(c, "hand-expansion-nested", core.Clone(d))
 				if _, isInt := oc.(int); isInt {
